@@ -12,6 +12,7 @@ import (
 	"io"
 	"mime/multipart"
 	"net/url"
+	"strconv"
 	"strings"
 	"sync"
 	"testing"
@@ -98,7 +99,30 @@ func xmlSafe(s string) bool {
 }
 
 // c01Check runs one round trip and returns its discrepancies.
+// c01MetaBytes expands the \xHH escapes of a case's metadata values: a case is kept as JSON,
+// which cannot hold byte strings that are not UTF-8.
+func c01MetaBytes(meta [][2]string) [][2]string {
+	out := make([][2]string, len(meta))
+	for i, kv := range meta {
+		v := kv[1]
+		var b []byte
+		for j := 0; j < len(v); j++ {
+			if v[j] == '\\' && j+3 < len(v) && v[j+1] == 'x' {
+				if n, err := strconv.ParseUint(v[j+2:j+4], 16, 8); err == nil {
+					b = append(b, byte(n))
+					j += 3
+					continue
+				}
+			}
+			b = append(b, v[j])
+		}
+		out[i] = [2]string{kv[0], string(b)}
+	}
+	return out
+}
+
 func c01Check(cs c01Case) (ds []disc) {
+	cs.Meta = c01MetaBytes(cs.Meta)
 	st := c01Stack(cs.Backend, cs.IntegrityOff)
 	body := cs.Body.bytes()
 	et := etagOf(body)
@@ -438,6 +462,8 @@ func c01GenMeta(rt *rapid.T) [][2]string {
 	valGen := rapid.OneOf(
 		rapid.StringMatching(`[!-~]([ -~]{0,40}[!-~])?`),
 		rapid.SampledFrom([]string{"päivää", "値", "a  b", "x;y=z", `"quoted"`, "100%", "a,b"}),
+		// header values are bytes (RFC 7230 obs-text): Latin-1 text and other byte strings that are not UTF-8
+		rapid.SampledFrom([]string{`caf\xe9`, `\xff\xfe\x80`, `na\xefve \xc3`, `\xe4\xf6\xfc`}), // expanded by c01MetaBytes
 	)
 	for i := 0; i < n; i++ {
 		name := "X-Amz-Meta-" + rapid.StringMatching(`[a-z][a-z0-9-]{0,10}[a-z0-9]`).Draw(rt, "mname")
@@ -583,6 +609,7 @@ func c01Run(t *testing.T, c *evid.Collector) {
 			for _, ioff := range []bool{false, true} {
 				for _, p := range []string{"put", "put-md5", "post", "copy", "api"} {
 					one(c01Case{Backend: k, IntegrityOff: ioff, Key: "plain", Body: bodySpec{}, Path: p}, "fixed")
+					one(c01Case{Backend: k, IntegrityOff: ioff, Key: "latin1-metadata", Body: bodySpec{Lit: []byte("x")}, Path: p, Meta: [][2]string{{"X-Amz-Meta-Name", `caf\xe9`}, {"Content-Disposition", `attachment; filename=\xe4.txt`}}}, "fixed")
 					one(c01Case{Backend: k, IntegrityOff: ioff, Key: "dir/sub dir/ünï+%/obj?#.txt", Body: bodySpec{Lit: []byte("hello\x00\xff world")}, Path: p,
 						Meta: [][2]string{{"X-Amz-Meta-A", "1"}, {"Content-Type", "text/x"}, {"Content-Encoding", "gzip"}, {"Content-Disposition", "inline"}}, Overwrite: true}, "fixed")
 				}
